@@ -67,7 +67,7 @@ func genCase(prop string) func(t *rapid.T) Case {
 			}
 		}
 		if c.State {
-			kinds = append(kinds, "setstate", "setstate", "setstatefn")
+			kinds = append(kinds, "setstate", "setstate", "setstatefn", "swapstate")
 		}
 		genOp := rapid.Custom(func(t *rapid.T) Op {
 			op := Op{K: rapid.SampledFrom(kinds).Draw(t, "k")}
@@ -78,7 +78,7 @@ func genCase(prop string) func(t *rapid.T) Case {
 			case "setroutine", "setstatefn":
 				op.Nil = rapid.IntRange(0, 5).Draw(t, "nil") == 0
 				op.Beh = rapid.SampledFrom(behs).Draw(t, "beh")
-			case "setstate":
+			case "setstate", "swapstate":
 				op.State = rapid.SampledFrom([]string{"fresh", "fresh", "same", "empty"}).Draw(t, "state")
 			case "finish":
 				op.Out = rapid.SampledFrom([]string{"nil", "err", "err", "ctxerr"}).Draw(t, "out")
@@ -719,6 +719,56 @@ func body(c *sched.Ctl, cs Case, v *ev.Verdict) {
 				}
 				if changed {
 					mustBeCancelled(fmt.Sprintf("SetState(%d)", st), before)
+				}
+			})
+		case "swapstate":
+			if !cs.State {
+				return false
+			}
+			hm.Lock()
+			var st int
+			switch op.State {
+			case "fresh":
+				nextState++
+				st = nextState
+			case "same":
+				st = -1 // the callback returns its argument
+			}
+			var before []*instance
+			var wantChanged bool
+			var wantState int
+			pendingMut[label] = func() {
+				before = activeNow()
+				next := st
+				if st == -1 {
+					next = m.state
+				}
+				if next != m.state {
+					_, wantChanged, _, _ = m.SetState(next)
+				}
+				wantState = m.state
+			}
+			hm.Unlock()
+			c.Go(label, func() {
+				seen := -2
+				next, ch, changed, _, _ := sc.SwapValue(func(v int) int {
+					seen = v
+					if st == -1 {
+						return v
+					}
+					return st
+				})
+				hm.Lock()
+				defer hm.Unlock()
+				_ = seen
+				if ch != nil {
+					chans = append(chans, chanRec{ch, before, fmt.Sprintf("SwapValue op %d", i)})
+				}
+				if changed != wantChanged || next != wantState {
+					noteResult("routine:swapvalue-result")
+				}
+				if changed {
+					mustBeCancelled("SwapValue", before)
 				}
 			})
 		case "restart":
